@@ -83,6 +83,7 @@ class GroupSums:
             rec["vals"].append(v)
             rec["gs"].append(g)
         self.calls.append(rec)
+        ev.path.notes.append(("gsum", rec))          # per-path record (self.calls only holds the last path's calls)
         k, k2, x = z3.Int("k!g"), z3.Int("k2!g"), z3.Int("x!g")
         ev.path.facts.append(U >= 0)
         ev.path.facts.append(z3.ForAll([k, k2], z3.Implies(z3.And(k >= 0, k < k2, k2 < U), uf(k) < uf(k2))))
@@ -583,38 +584,38 @@ def node_load_column(ctx):
                             "_lookups": {"node_index": {"junction": K.sym_arr("junction_lookup", NL, "i")}}})
             return [_c, net, K.sym_pit("node_pit", NN, NCN)], {}
         paths = T.run_paths(ctx, CF + ":ConstFlow.create_pit_node_entries", mk, contracts={IT + ":_sum_by_group": gsum})
-        ok = len(paths) == 1 and paths[0].exc is None and len(gsum.calls) == 1 and len(gsum.calls[0]["gs"]) == 1
-        ctx.decided("%s/single-path-one-group-sum" % cname, "cover", ok, witness=str([str(p.exc) for p in paths]))
+        recs = [[d for tag, d in p.notes if tag == "gsum"] for p in paths]
+        ok = len(paths) >= 1 and all(p.exc is None for p in paths) and all(len(r) == 1 and len(r[0]["gs"]) == 1 for r in recs)
+        ctx.decided("%s/every-path-returns-after-one-group-sum" % cname, "cover", ok, witness=str([str(p.exc) for p in paths]))
         if not ok:
             continue
-        p, rec = paths[0], gsum.calls[0]
         tbl = K.sym_table(tname, n, cols)
         np0 = K.sym_pit("node_pit", NN, NCN)
         L = K.sym_arr("junction_lookup", NL, "i")
-        npf = p.args[0][2]
         r = z3.Int("r")
         mdot = tbl.columns["mdot_kg_per_s"].f(r)
         term = V.R(ite(nan_of(mdot), 0, val_of(mdot))) * z3.If(tbl.columns["in_service"].f(r), 1.0, 0.0) * \
             V.R(tbl.columns["scaling"].f(r)) * sgn
-        facts = list(p.facts) + [p.cond()]
-        ctx.ob("%s/group-sum-arguments" % cname, "ensures", [n >= 1, r >= 0, r < n] + facts,
-               z3.And(K.eq_val(rec["idx"].f(r), tbl.columns["junction"].f(r)), K.eq_val(rec["vals"][0].f(r), term)))
-        u, g = rec["u"], rec["gs"][0]
-        k, k2, kk, o, c = z3.Int("k!key"), z3.Int("k2!key"), z3.Int("kk"), z3.Int("o!node"), z3.Int("c!col")
-        inj = z3.ForAll([k, k2], z3.Implies(z3.And(k >= 0, k < u.n, k2 >= 0, k2 < u.n, k != k2), L.f(u.f(k)) != L.f(u.f(k2))))
-        rng = z3.ForAll([k], z3.Implies(z3.And(k >= 0, k < u.n), z3.And(L.f(u.f(k)) >= 0, L.f(u.f(k)) < NN)))
-        req = [n >= 1, NN >= 1, inj, rng] + facts
-        qq = L.f(u.f(kk))
-        ctx.ob("%s/load-accumulated-at-the-junction-node" % cname, "ensures", req + [kk >= 0, kk < u.n],
-               K.eq_val(npf.f(qq, N_LOAD), V.R(np0.f(qq, N_LOAD)) + g(u.f(kk))))
-        ctx.ob("%s/frame-other-nodes-and-columns" % cname, "frame",
-               req + [o >= 0, o < NN, c >= 0, c < NCN,
-                      z3.Or(c != N_LOAD, z3.ForAll([k], z3.Implies(z3.And(k >= 0, k < u.n), L.f(u.f(k)) != o)))],
-               K.eq_val(npf.f(o, c), np0.f(o, c)))
+        for kx, (p, rr) in enumerate(zip(paths, recs)):
+            rec = rr[0]
+            sfx = "" if len(paths) == 1 else "#%d" % kx
+            npf = p.args[0][2]
+            facts = list(p.facts) + [p.cond()]
+            ctx.ob("%s/group-sum-arguments%s" % (cname, sfx), "ensures", [n >= 1, r >= 0, r < n] + facts,
+                   z3.And(K.eq_val(rec["idx"].f(r), tbl.columns["junction"].f(r)), K.eq_val(rec["vals"][0].f(r), term)))
+            u, g = rec["u"], rec["gs"][0]
+            k, k2, kk, o, c = z3.Int("k!key"), z3.Int("k2!key"), z3.Int("kk"), z3.Int("o!node"), z3.Int("c!col")
+            inj = z3.ForAll([k, k2], z3.Implies(z3.And(k >= 0, k < u.n, k2 >= 0, k2 < u.n, k != k2), L.f(u.f(k)) != L.f(u.f(k2))))
+            rng = z3.ForAll([k], z3.Implies(z3.And(k >= 0, k < u.n), z3.And(L.f(u.f(k)) >= 0, L.f(u.f(k)) < NN)))
+            req = [n >= 1, NN >= 1, inj, rng] + facts
+            qq = L.f(u.f(kk))
+            ctx.ob("%s/load-accumulated-at-the-junction-node%s" % (cname, sfx), "ensures", req + [kk >= 0, kk < u.n],
+                   K.eq_val(npf.f(qq, N_LOAD), V.R(np0.f(qq, N_LOAD)) + g(u.f(kk))))
+            ctx.ob("%s/frame-other-nodes-and-columns%s" % (cname, sfx), "frame",
+                   req + [o >= 0, o < NN, c >= 0, c < NCN,
+                          z3.Or(c != N_LOAD, z3.ForAll([k], z3.Implies(z3.And(k >= 0, k < u.n), L.f(u.f(k)) != o)))],
+                   K.eq_val(npf.f(o, c), np0.f(o, c)))
 
-
-# ---------------------------------------------------------------------------------------------
-# result columns <- internal result arrays: the name pairing used by every branch component without internals
 
 @unit("C01", "results/column_pairing", functions=[CTB + ":standard_branch_wo_internals_result_lookup"], engine="E5")
 def result_column_pairing(ctx):
